@@ -123,7 +123,7 @@ typedef struct {
 } Expect;
 
 /* ---- alphabet ---- */
-enum { EV_SET, EV_CLR, EV_RESET, EV_HWR, EV_HRD, EV_RRD, EV_GET, EV_CNT, EV_NMT, EV_ID, EV_BURST, EV_START };
+enum { EV_SET, EV_CLR, EV_RESET, EV_HWR, EV_HRD, EV_RRD, EV_GET, EV_CNT, EV_NMT, EV_ID, EV_BURST, EV_START, EV_LONG };
 typedef struct { uint8_t kind, a, b; } Ev;
 static Ev  EVS[80];
 static int NEV;
@@ -144,6 +144,7 @@ static const char *ev_name(int e)
     case EV_CNT:   snprintf(b, sizeof b, "cnt()"); break;
     case EV_NMT:   snprintf(b, sizeof b, "nmt(%s)", E->a == 1 ? "start" : E->a == 2 ? "stop" : "pre-op"); break;
     case EV_START: snprintf(b, sizeof b, "node-start()"); break;
+    case EV_LONG:  snprintf(b, sizeof b, "85 x burst (255 activations) on errors %d,%d", E->a, E->b); break;
     case EV_BURST: snprintf(b, sizeof b, "burst(clr %d,set %d,clr %d,set %d+usr,clr %d,set %d)", E->a, E->a, E->a, E->a, E->b, E->b); break;
     default:       snprintf(b, sizeof b, "sdo-write(1014h:00,%s)", E->a ? "enable" : "disable"); break;
     }
@@ -228,6 +229,7 @@ static int build(int cfg)
     if (big) ev_add(EV_CLR, BIGIDX, 0);
     ev_add(EV_RESET, 0, 0); ev_add(EV_RESET, 1, 0);
     if (burst) ev_add(EV_BURST, 0, nerr > 1 ? 1 : 0);
+    if (mc_opt("long", 0)) ev_add(EV_LONG, 0, nerr > 1 ? 1 : 0);   /* --opt long=1: 255 activations in one event - histories longer than any 8-bit counter of activations */
     if (C.init) {                                                 /* no communication in INIT: API events only */
         if (query) { for (int e = 0; e < nerr; e++) ev_add(EV_GET, e, 0); if (big) ev_add(EV_GET, BIGIDX, 0); ev_add(EV_CNT, 0, 0); }
         ev_add(EV_START, 0, 0);
@@ -404,6 +406,13 @@ static int step(int ev)
         do_set(E->a, 1, what); check_state();
         do_clr(E->b, what); check_state();
         do_set(E->b, 0, what);
+        break;
+    case EV_LONG:
+        for (int r = 0; r < 85; r++) {
+            w_obs_clear();                                        /* the frames of the previous round have been judged */
+            do_clr(E->a, what); check_state(); do_set(E->a, 0, what); check_state(); do_clr(E->a, what); check_state();
+            do_set(E->a, 1, what); check_state(); do_clr(E->b, what); check_state(); do_set(E->b, 0, what); if (r < 84) check_state();
+        }
         break;
     case EV_RESET: {
         unsigned pre = m_mask();
